@@ -41,7 +41,10 @@ Record robs := { o_panic : bool; o_err : bool; o_val : oval;
                  o_nil : bool; o_len : nat; o_win : list Z; o_same : bool;
                  (* capacity windows, re-read after this call, of every slice handed over so far: the slice the wrapper
                     was built from, then every slice a call returned, in order *)
-                 o_ret : list (list Z) }.
+                 o_ret : list (list Z);
+                 (* what a spying callback saw of the receiver (its contents) at its invocations, consecutive repeats
+                    dropped; [] when the call had no spying callback *)
+                 o_seen : list (list Z) }.
 Record step := { st_m : meth; st_obs : list robs }.
 Record bscase := { c_init : list Z; c_vars : list (bool * nat); c_steps : list step }.
 
@@ -70,7 +73,8 @@ Definition prop_variant (m : meth) (c : list Z) (o : robs) : bool :=
   && (about_cap m || negb (search_pre m c) || pval_eqb (oabs (o_val o)) (pure_result m c))
   && Bool.eqb (o_err o) (invalid m (zlength c))
   && (negb (copying m) || match o_val o with OSlice _ _ _ al => negb al | _ => true end)
-  && match pure_cap m c with Some k => Nat.eqb (length (o_win o)) k | None => true end.
+  && match pure_cap m c with Some k => Nat.eqb (length (o_win o)) k | None => true end
+  && (negb (sees_unchanged m) || forallb (zl_eqb c) (o_seen o)).
 
 (* retained slices: (window when last read, still linked to the receiver). A slice that is not linked - the result of a
    copying method, or anything handed over before a detaching method - must never change again. *)
@@ -181,15 +185,53 @@ Definition check_bs (c : bscase) : nat :=
 Record bmstep := { ms_op : bm_op; ms_out : bm_out; ms_after : option (list (Z * Z)) }.
 Record bmcase := { mc_init : option (list (Z * Z)); mc_steps : list bmstep }.
 
+Definition nat_list_eqb (a : list nat) (b : list Z) : bool := list_eqb Z.eqb (map Z.of_nat a) b.
+Definition submap (a m : amap) : bool :=
+  forallb (fun kv => match a_get (fst kv) m with Some v => v =? snd kv | None => false end) a.
+Fixpoint keys_increasing (a : amap) : bool :=
+  match a with kv :: ((kv' :: _) as t) => (fst kv <? fst kv') && keys_increasing t | _ => true end.
+
+(* DeleteFunc with a callback on the live size: which pairs go depends on Go's iteration order, so the judgement is what
+   holds for EVERY order: the sizes the callback saw, how many pairs are left, and that they are pairs of the old map.
+   The model goes on from the map the implementation was left with. *)
+Definition live_delete_ok (st : bmap) (g : nat -> bool) (x : bmstep) : bool :=
+  match st, ms_after x with
+  | None, None => bm_out_eqb (ms_out x) (BList [])
+  | Some m, Some a =>
+      let n := length m in
+      match ms_out x with
+      | BList seen => nat_list_eqb (live_trace g n n) seen
+      | _ => false
+      end
+      && Nat.eqb (length a) (n - drops g n n) && submap a m && keys_increasing a
+  | _, _ => false
+  end.
+
 Definition bm_step_check (st : bmap) (x : bmstep) : bmap * nat :=
-  let '(st', out) := bmap_step st (ms_op x) in
-  let '(sp', sout) := fmap_step st (ms_op x) in
-  (st',
-   kind_of (bm_out_eqb out (ms_out x) && bmap_eqb st' (ms_after x))
-           (bm_out_eqb sout (ms_out x) && bmap_eqb sp' (ms_after x))).
+  match ms_op x with
+  | ODeleteFuncLive g => (ms_after x, kind_of true (live_delete_ok st g x))
+  | _ =>
+    let '(st', out) := bmap_step st (ms_op x) in
+    let '(sp', sout) := fmap_step st (ms_op x) in
+    (st',
+     kind_of (bm_out_eqb out (ms_out x) && bmap_eqb st' (ms_after x))
+             (bm_out_eqb sout (ms_out x) && bmap_eqb sp' (ms_after x)))
+  end.
 
 Definition check_bm (c : bmcase) : nat := scan bm_step_check (mc_init c) (mc_steps c) 0.
 
-Inductive case := BS (c : bscase) | BM (c : bmcase).
-Definition check_case (c : case) : nat := match c with BS b => check_bs b | BM b => check_bm b end.
+(* ---------- float instantiations of the Ordered / Calculable wrappers ----------
+   Values are IEEE bit patterns (math.Float64bits / Float32bits as Z: NaN payloads and the sign of zero are kept). The
+   reference (the pure left fold / loop on a plain slice with the same bmath function) is computed IN GO by the harness; Coq
+   only decides: no panic, result and receiver contents bit-equal to the reference on every wrapper (unsafe and safe) and on
+   every capacity variant. There is no Coq model of float arithmetic: every disagreement is kind 2. *)
+Record flobs := { f_panic : bool; f_val : list Z; f_after : list Z }.
+Record flcase := { fl_ref_val : list Z; fl_ref_after : list Z; fl_obs : list flobs }.
+Definition check_fl (c : flcase) : nat :=
+  if forallb (fun o => negb (f_panic o) && zl_eqb (f_val o) (fl_ref_val c) && zl_eqb (f_after o) (fl_ref_after c)) (fl_obs c)
+  then 0 else 2.
+
+Inductive case := BS (c : bscase) | BM (c : bmcase) | FL (c : flcase).
+Definition check_case (c : case) : nat :=
+  match c with BS b => check_bs b | BM b => check_bm b | FL f => check_fl f end.
 Definition mismatches (cs : list case) : list (nat * nat) := find_bad check_case cs.
